@@ -11,6 +11,9 @@ MODULES = [
     "specs.toc",
     "specs.attrs",
     "specs.purity",
+    "specs.package",
+    "specs.textscan",
+    "specs.styles",
     "specs.b_text",
     "specs.b_package",
     "specs.b_values",
